@@ -66,3 +66,33 @@ func ZZ_C19_prio3_PrepInit_refuses_aggregator_index_out_of_range() {
 	_, _, err := v.PrepInit(&vk, &nonce, aggID, nil, InputShare[fp64.Vec, fp64.Fp]{})
 	zzAssert(err == ErrAggID, "aggID >= numShares is refused with ErrAggID")
 }
+
+// C19/C11: merging aggregation shares (Unshard) returns their element-wise sum modulo the field
+// prime and leaves every share as it was - so unsharding again, or after aggregating more reports,
+// still gives the aggregate of the batch.  2 and 3 aggregators, symbolic share elements (< p).
+//
+//zz: prop=C19 also=C11 tier=quick backend=lia timeout=300
+func ZZ_C19_prio3_aggregateMerge_sums_and_preserves_shares() {
+	const p = "0xffffffff00000001"
+	n := zzPick("aggregators", 2, 3)
+	v := Prio3[bool, uint64, zzFlp, fp64.Vec, fp64.Fp, *fp64.Fp]{shares: uint8(n)}
+	shares := make([]AggShare[fp64.Vec, fp64.Fp], n)
+	before := make([]fp64.Fp, n)
+	sum := zzWConst("0")
+	for i := range shares {
+		shares[i].share = make(fp64.Vec, 1)
+		zzFill("share", &shares[i].share[0])
+		zzAssumeNote(zzWLt(zzWLE64(shares[i].share[0][:]), zzWConst(p)), "share elements are reduced field elements")
+		before[i] = shares[i].share[0]
+		sum = zzWAdd(sum, zzWLE64(shares[i].share[0][:]))
+	}
+	s := v.aggregateMerge(shares)
+	zzAssert(len(s.share) == 1, "merged share has the output length")
+	zzAssert(zzWCong(zzWLE64(s.share[0][:]), sum, p), "merged share = sum of the aggregation shares mod p")
+	zzAssert(zzWLt(zzWLE64(s.share[0][:]), zzWConst(p)), "merged share is reduced")
+	same := []bool{}
+	for i := range shares {
+		same = append(same, shares[i].share[0] == before[i])
+	}
+	zzAssert(zzAnd(same...), "the aggregation shares handed in are unchanged")
+}
